@@ -21,7 +21,7 @@ ASSUMPTIONS = ['the JSON round trip of a Python dict with the documented NumPy c
                'keys are strings; bytes values and np.bool_ are outside the statement and not judged']
 ANCHORS = ['metadata:MetaData.update', 'metadata:MetaData.pop', 'metadata:MetaData.popitem',
            'metadata:MetaData._read', 'utils:write_jsonfile', 'utils:DDJSONEncoder.default']
-REQUIRED = ['mon.accessors_live', 'mon.accessors_fresh', 'mon.file_iff_nonempty', 'mon.nonserialisable',
+REQUIRED = ['mon.strict_types', 'mon.accessors_live', 'mon.accessors_fresh', 'mon.file_iff_nonempty', 'mon.nonserialisable',
             'mon.missing_key']
 MIN_NONTRIVIAL = {'quick': 5000, 'thorough': 50000}
 
@@ -38,6 +38,8 @@ def pool():
         True, False, None, [1, [2, 'x', None], {'k': [3.5]}], {'n': {'m': [1, 2]}, 'é': 1},
         np.int64(-5), np.uint64(2 ** 63), np.int8(3), np.float32(0.1), np.float64(1e300),
         np.array([1, 2, 3], dtype='int16'), np.array([[1.5, float('nan')]]), (1, 'two', 3.0),
+        np.longdouble(2.5), np.float16(1.5), np.array([1.5, 2.5], dtype=np.longdouble), np.uint8(200),
+        {'t': (1, (2, 3)), 'a': np.arange(3)},
     ]
 
 
@@ -67,15 +69,29 @@ def cases(tier, seed):
         for start in STARTS:
             for seq in itertools.product(range(len(SYMS)), repeat=length):
                 idx += 1
-                yield {'start': list(start), 'ops': list(seq), 'rot': (idx + seed) % 24}
+                yield {'start': list(start), 'ops': list(seq), 'rot': (idx + seed) % 29}
     rng = random.Random(f'C13:{seed}')
     for k in range(300 if tier == 'quick' else 3000):
-        yield {'start': list(rng.choice(STARTS)), 'rot': rng.randrange(24),
+        yield {'start': list(rng.choice(STARTS)), 'rot': rng.randrange(29),
                'ops': [rng.randrange(len(SYMS)) for _ in range(rng.randint(8, 40))]}
 
 
 class Unserialisable:
     pass
+
+
+PLAIN = (dict, list, str, int, float, bool, type(None))
+
+
+def plain_json(x):
+    """True iff x consists of exactly the types a JSON parser produces (no NumPy scalars, tuples, arrays)."""
+    if type(x) not in PLAIN:
+        return False
+    if type(x) is dict:
+        return all(type(k) is str and plain_json(v) for k, v in x.items())
+    if type(x) is list:
+        return all(plain_json(v) for v in x)
+    return True
 
 
 def observe(res, md, model, tag):
@@ -84,6 +100,13 @@ def observe(res, md, model, tag):
     res.count(f'mon.accessors_{tag}')
     checks = []
     try:
+        res.count('mon.strict_types')
+        whole = dict(md)
+        if not plain_json(whole) or not all(plain_json(v) for v in md.values()) or \
+                not all(plain_json(md[k]) and plain_json(md.get(k)) for k in whole):
+            res.fail(f'accessor-returns-non-json-types:{tag}',
+                     f'{tag} handle returns objects that are not the JSON round trip (NumPy scalars/arrays, tuples ...): {whole!r}')
+            return False
         checks.append(('dict', canon(dict(md)), canon(rt)))
         checks.append(('len', len(md), len(rt)))
         for k in ('a', 'b', 'zz'):
